@@ -92,6 +92,8 @@ type StoreWrap struct {
 	quickfix.MessageStore
 	R   *Recorder
 	Who string
+	// Delay, when set, is called before an operation is forwarded (delay injection at the store boundary).
+	Delay func(op string)
 }
 
 func (w *StoreWrap) ev(op string, arg, before, after int, b []byte) {
@@ -116,6 +118,9 @@ func (w *StoreWrap) IncrNextSenderMsgSeqNum() error {
 	return err
 }
 func (w *StoreWrap) SaveMessageAndIncrNextSenderMsgSeqNum(n int, msg []byte) error {
+	if w.Delay != nil {
+		w.Delay("SaveIncr")
+	}
 	b := w.MessageStore.NextSenderMsgSeqNum()
 	err := w.MessageStore.SaveMessageAndIncrNextSenderMsgSeqNum(n, msg)
 	w.ev("SaveIncr", n, b, w.MessageStore.NextSenderMsgSeqNum(), append([]byte{}, msg...))
@@ -123,6 +128,10 @@ func (w *StoreWrap) SaveMessageAndIncrNextSenderMsgSeqNum(n int, msg []byte) err
 }
 func (w *StoreWrap) Reset() error {
 	b := w.MessageStore.NextTargetMsgSeqNum()
+	w.ev("ResetEnter", 0, b, b, nil)
+	if w.Delay != nil {
+		w.Delay("Reset")
+	}
 	err := w.MessageStore.Reset()
 	w.ev("Reset", 0, b, w.MessageStore.NextTargetMsgSeqNum(), nil)
 	return err
@@ -132,6 +141,7 @@ type wrapFactory struct {
 	inner quickfix.MessageStoreFactory
 	r     *Recorder
 	who   string
+	delay func(op string)
 	last  *StoreWrap
 	mu    sync.Mutex
 }
@@ -141,7 +151,7 @@ func (f *wrapFactory) Create(id quickfix.SessionID) (quickfix.MessageStore, erro
 	if err != nil {
 		return nil, err
 	}
-	w := &StoreWrap{MessageStore: s, R: f.r, Who: f.who}
+	w := &StoreWrap{MessageStore: s, R: f.r, Who: f.who, Delay: f.delay}
 	f.mu.Lock()
 	f.last = w
 	f.mu.Unlock()
@@ -170,6 +180,7 @@ type Options struct {
 	StoreDir  string
 	Extra     map[string]string
 	R         *Recorder
+	Delay     func(op string)
 }
 
 // Engine is a running Acceptor or Initiator with one session.
@@ -229,7 +240,7 @@ func start(o Options, initiator bool) (*Engine, error) {
 		}
 		inner = f
 	}
-	e.fact = &wrapFactory{inner: inner, r: o.R, who: o.Who}
+	e.fact = &wrapFactory{inner: inner, r: o.R, who: o.Who, delay: o.Delay}
 	if initiator {
 		e.Ini, err = quickfix.NewInitiator(e.App, e.fact, st, quickfix.NewNullLogFactory())
 		if err != nil {
